@@ -27,6 +27,7 @@ enum Job {
     C05Constants,
     C04Families,
     C02PromoThenSpecial,
+    Tree { start: usize, synth_stream: Option<u64> },
 }
 
 pub fn run(prop: Prop, tier: Tier, seed: u64) -> i32 {
@@ -108,6 +109,14 @@ pub fn run(prop: Prop, tier: Tier, seed: u64) -> i32 {
     if prop == Prop::C02 || prop == Prop::C01 {
         jobs.push(Job::C02PromoThenSpecial);
     }
+    if matches!(prop, Prop::C01 | Prop::C02 | Prop::C05 | Prop::C06) {
+        for i in 0..starts.len() {
+            jobs.push(Job::Tree { start: i, synth_stream: None });
+        }
+        for i in 0..tier.pick(64u64, 1500) {
+            jobs.push(Job::Tree { start: 0, synth_stream: Some(600_000 + i) });
+        }
+    }
     let results = par::par_map(jobs.len(), |i| {
         let mut acc = Acc::new();
         run_job(&jobs[i], prop, seed, &starts, &h, &mut acc);
@@ -126,7 +135,7 @@ pub fn run(prop: Prop, tier: Tier, seed: u64) -> i32 {
     run.finish()
 }
 
-fn run_job(job: &Job, prop: Prop, seed: u64, starts: &[Pos], h: &ZobristHasher, acc: &mut Acc) {
+pub fn run_job(job: &Job, prop: Prop, seed: u64, starts: &[Pos], h: &ZobristHasher, acc: &mut Acc) {
     match job {
         Job::Walk { start, policy, stream } => {
             let mut rng = Rng::stream(seed, *stream);
@@ -232,6 +241,22 @@ fn run_job(job: &Job, prop: Prop, seed: u64, starts: &[Pos], h: &ZobristHasher, 
         Job::C05Constants => c05_constants(h, acc),
         Job::C04Families => c04_families(h, acc),
         Job::C02PromoThenSpecial => promo_then_special(prop, h, acc),
+        Job::Tree { start, synth_stream } => {
+            let p = match synth_stream {
+                Some(st) => {
+                    let mut rng = Rng::stream(seed, *st);
+                    workload::synth_position(&mut rng)
+                }
+                None => starts[*start].clone(),
+            };
+            let pieces = p.sq.iter().filter(|x| x.is_some()).count();
+            let depth = if pieces <= 5 { 4 } else if pieces <= 10 { 3 } else { 2 };
+            if let Ok(Ok(eb)) = par::catch(|| engine_from_pos(&p)) {
+                let o = Origin { start_fen: p.to_fen(), moves: vec![], carrier: "fen", cap_moves: vec![] };
+                tree_check(&p, &eb, depth, h, prop, &o, acc);
+                acc.count("tree_roots", 1);
+            }
+        }
     }
 }
 
@@ -309,7 +334,7 @@ pub fn c06_family(idx: usize) -> Option<Pos> {
     Some(p)
 }
 
-fn random_placement(rng: &mut Rng) -> Pos {
+pub fn random_placement(rng: &mut Rng) -> Pos {
     let mut p = Pos::empty();
     let wk = rng.below(64) as u8;
     let mut bk = rng.below(64) as u8;
@@ -332,7 +357,7 @@ fn random_placement(rng: &mut Rng) -> Pos {
     p
 }
 
-fn c06_placement(p: &Pos, acc: &mut Acc, sample: bool) {
+pub fn c06_placement(p: &Pos, acc: &mut Acc, sample: bool) {
     let o = Origin { start_fen: p.to_fen(), moves: vec![], carrier: "fen", cap_moves: vec![] };
     let eb = match par::catch(|| load_fen(&p.to_fen6(0, 1))) {
         Ok(Ok(b)) => b,
@@ -366,7 +391,7 @@ fn c06_placement(p: &Pos, acc: &mut Acc, sample: bool) {
 // ---------------------------------------------------------------------------------------------
 
 /// Two move orders reaching the identical position must give identical keys on every carrier.
-fn c05_transposition(start: &Pos, h: &ZobristHasher, rng: &mut Rng, acc: &mut Acc) {
+pub fn c05_transposition(start: &Pos, h: &ZobristHasher, rng: &mut Rng, acc: &mut Acc) {
     // walk a few random plies first
     let mut p = start.clone();
     let mut prefix: Vec<Mv> = Vec::new();
@@ -464,7 +489,7 @@ pub fn keys_along(start: &Pos, seq: &[Mv], h: &ZobristHasher) -> (Option<u64>, O
 }
 
 /// Changing any single component of a position must change the key (observed through from_fen).
-fn c05_flips(p: &Pos, h: &ZobristHasher, rng: &mut Rng, acc: &mut Acc) {
+pub fn c05_flips(p: &Pos, h: &ZobristHasher, rng: &mut Rng, acc: &mut Acc) {
     let base = match par::catch(|| engine_from_pos(p)) {
         Ok(Ok(b)) => b.zobrist_key,
         _ => return,
@@ -531,7 +556,7 @@ fn c05_flips(p: &Pos, h: &ZobristHasher, rng: &mut Rng, acc: &mut Acc) {
 }
 
 /// All hasher constants addressable by a legal position: pairwise distinct and non-zero.
-fn c05_constants(h: &ZobristHasher, acc: &mut Acc) {
+pub fn c05_constants(h: &ZobristHasher, acc: &mut Acc) {
     use crate::board::{Piece, PieceColor, PieceKind};
     use crate::move_generation::CastlingType;
     let mut vals: Vec<(String, u64)> = Vec::new();
@@ -621,7 +646,7 @@ pub fn truncate(s: &str, n: usize) -> String {
 
 /// Explicit families named in C04's quantifier. Each is a (start FEN, move list) replayed through
 /// the walker with a fixed chooser, so every per-ply C04 comparison applies.
-fn c04_families(h: &ZobristHasher, acc: &mut Acc) {
+pub fn c04_families(h: &ZobristHasher, acc: &mut Acc) {
     let mut cases: Vec<(String, Vec<&str>)> = Vec::new();
     let both = "r3k2r/pppppppp/8/8/8/8/PPPPPPPP/R3K2R w KQkq -";
     for (w, b) in [("e1g1", "e8g8"), ("e1c1", "e8c8"), ("e1g1", "e8c8"), ("e1c1", "e8g8")] {
@@ -738,12 +763,12 @@ fn c04_families(h: &ZobristHasher, acc: &mut Acc) {
     acc.count("c04_family_scripts", n_ok);
 }
 
-fn leak(s: String) -> &'static str {
+pub fn leak(s: String) -> &'static str {
     Box::leak(s.into_boxed_str())
 }
 
 /// Targeted family: promotion at ply n, castling / ep / quiet move at ply n+1 (inherited fields).
-fn promo_then_special(prop: Prop, h: &ZobristHasher, acc: &mut Acc) {
+pub fn promo_then_special(prop: Prop, h: &ZobristHasher, acc: &mut Acc) {
     let mut rng = Rng::new(11);
     let mut scripts: Vec<(&str, Vec<String>)> = Vec::new();
     for promo in ["q", "r", "b", "n"] {
